@@ -114,6 +114,25 @@ def run(tier, seed):
             err = render(env, src, POOL)
             if err:
                 viol.append({"id": "non-liquid-exception", "witness": f"parse:{src[:16]}:{err.split(':')[0]}", "source": src, "got": err, "mode": mode})
+    # errors near the end of a source with CRLF line breaks (WARN mode formats the error's line and
+    # column for its warning), and empty output inside blocks under an output limit
+    crlf = ["line\r\n" * 12 + s_ for s_ in MALFORMED[:8]] + ["line\r\n" * 12 + "{{ 1 | divided_by: 0 }}", "line\r\n" * 12 + "{% for i in (1..2) %}{% endfor %}{% break %}", "a\r\nb\r\n{% render 'nosuch' %}"]
+    for mode, env in envs():
+        for src in crlf:
+            cases += 1
+            err = render(env, src, POOL)
+            if err:
+                viol.append({"id": "non-liquid-exception", "witness": f"crlf:{src[-14:]}:{err.split(':')[0]}", "source": src, "got": err, "mode": mode})
+
+    class Limited(Environment):
+        output_stream_limit = 1000
+    lim = Limited()
+    for src in ("{% if true %}{{ sempty }}{% endif %}", "{% for i in l %}{{ sempty }}{% endfor %}", "{% case 1 %}{% when 1 %}{{ sempty }}{% endcase %}", "{% capture c %}{{ sempty }}{% endcapture %}[{{ c }}]", "{% unless false %}{{ nil }}{% endunless %}"):
+        for mode_ in ("sync", "async"):
+            cases += 1
+            err = render(lim, src, dict(POOL, sempty=""), mode_)
+            if err:
+                viol.append({"id": "non-liquid-exception", "witness": f"limited-empty-output:{err.split(':')[0]}", "source": src, "got": err, "mode": mode_})
     for mode, env in envs():
         for src, data in SPECIAL:
             cases += 1
